@@ -1,13 +1,13 @@
 /-
-  C13_sql, value level: the text of formatSQLValue reads as the tokens `valueToks`, and the spec's decoder accepts exactly
-  these tokens for the value.
+  C13_sql, value level: the text of formatSQLValue (typID = the column's type, or the element type of its array type) reads
+  as the tokens `valueToks`, and the spec's decoder accepts exactly these tokens for the value and that type.
 -/
-import PgVerif.Proofs.SqlCompose
+import PgVerif.Proofs.SqlArrayTypes
 import PgVerif.Proofs.ExportJson
 namespace PgVerif.Proofs.SqlValue
-open PgVerif PgVerif.Export PgVerif.Model.Export PgVerif.Proofs.SqlLex PgVerif.Proofs.SqlCompose
+open PgVerif PgVerif.Export PgVerif.Model.Export PgVerif.Proofs.SqlLex PgVerif.Proofs.SqlCompose PgVerif.Proofs.SqlArrayTypes
 open PgVerif.Spec.SqlLex hiding asc
-open PgVerif.Spec.SqlExport (one isWord isOp signedNum floatCell value values)
+open PgVerif.Spec.SqlExport (one isWord isOp signedNum floatCell value values jsonDoc elemType castOf isJsonType)
 
 /-- what follows a value in the tool's text: a comma, a closing parenthesis or a closing bracket -/
 def closeB : Bnd := fun o => ∀ c, o = some c → c = 44 ∨ c = 41 ∨ c = 93
@@ -33,24 +33,161 @@ def numTextToks (text : Bytes) : List Tok :=
 structure FloatSqlOK (F : FloatFmt) : Prop where
   r64 : ∀ b, isNonFiniteText (F.v64 b) = false → Reads numB (F.v64 b) (numTextToks (F.v64 b))
   r32 : ∀ b, isNonFiniteText (F.v32 b) = false → Reads numB (F.v32 b) (numTextToks (F.v32 b))
+  /-- `%v` of a float never prints a NUL byte -/
+  nul64 : ∀ b, (0 : UInt8) ∉ F.v64 b
+  nul32 : ∀ b, (0 : UInt8) ∉ F.v32 b
 
 def floatToks (text : Bytes) : List Tok := if isNonFiniteText text then [.str text] else numTextToks text
 
+/-- the token of the JSON branch: one string constant holding the JSON text -/
+def jsonTok (F : FloatFmt) (v : GoVal) : List Tok := [.str (writeJSONValue F v)]
+
 mutual
-def valueToks (F : FloatFmt) : GoVal → List Tok
+/-- the tokens of `formatSQLValue F ty v` -/
+def valueToks (F : FloatFmt) (ty : Int) : GoVal → List Tok
   | .nil => [.word (asc "null")]
-  | .bool b => [.word (if b then asc "true" else asc "false")]
-  | .int i => intToks i
-  | .f64 b => floatToks (F.v64 b)
-  | .f32 b => floatToks (F.v32 b)
-  | .str s => [.str s]
-  | .arr [] => [.str (asc "{}")]
-  | .arr (x :: xs) => .word (asc "array") :: .op [91] :: (elemsToks F (x :: xs) ++ [.op [93]])
-  | .obj kvs => [.str (mapToJSON F kvs)]
-def elemsToks (F : FloatFmt) : List GoVal → List Tok
+  | .bool b => if isJsonOid ty then jsonTok F (.bool b) else [.word (if b then asc "true" else asc "false")]
+  | .int i => if isJsonOid ty then jsonTok F (.int i) else intToks i
+  | .f64 b => if isJsonOid ty then jsonTok F (.f64 b) else floatToks (F.v64 b)
+  | .f32 b => if isJsonOid ty then jsonTok F (.f32 b) else floatToks (F.v32 b)
+  | .str s => if isJsonOid ty then jsonTok F (.str s) else [.str (cstr s)]
+  | .arr [] => if isJsonOid ty then jsonTok F (.arr []) else [.str (asc "{}")]
+  | .arr (x :: xs) => if isJsonOid ty then jsonTok F (.arr (x :: xs)) else
+      .word (asc "array") :: .op [91] :: (elemsToks F ((arrayElemType ty).getD 0) (x :: xs) ++ .op [93] :: castToks ty)
+  | .obj kvs => jsonTok F (.obj kvs)
+def elemsToks (F : FloatFmt) (ty : Int) : List GoVal → List Tok
   | [] => []
-  | [x] => valueToks F x
-  | x :: y :: rest => valueToks F x ++ .op [44] :: elemsToks F (y :: rest)
+  | [x] => valueToks F ty x
+  | x :: y :: rest => valueToks F ty x ++ .op [44] :: elemsToks F ty (y :: rest)
+end
+
+/-! ### the JSON text holds no NUL -/
+
+theorem dec_noNul (n : Nat) : (0 : UInt8) ∉ dec n := by
+  intro h
+  have := (ExportDec.dec_props n).2.1 0 h
+  simp [ExportDec.IsDig] at this
+
+theorem decInt_noNul (i : Int) : (0 : UInt8) ∉ decInt i := by
+  unfold decInt
+  split
+  · intro h
+    simp only [List.mem_cons] at h
+    rcases h with h | h
+    · exact absurd h (by decide)
+    · exact dec_noNul _ h
+  · exact dec_noNul _
+
+theorem hexLow_ne_zero (n : Nat) (h : n < 16) : hexLow n ≠ 0 := by
+  have : ∀ k : Fin 16, hexLow k.val ≠ 0 := by decide
+  exact this ⟨n, h⟩
+
+theorem jsonString_noNul (s : Bytes) : (0 : UInt8) ∉ jsonString s := by
+  unfold jsonString
+  intro h
+  simp only [List.mem_cons, List.mem_append, List.not_mem_nil, or_false] at h
+  rcases h with h | h | h
+  · exact absurd h (by decide)
+  · rw [List.mem_flatMap] at h
+    obtain ⟨c, _, hc⟩ := h
+    unfold jsonByte at hc
+    split at hc
+    · rename_i h1
+      simp only [List.mem_cons, List.not_mem_nil, or_false] at hc
+      rcases hc with hc | hc
+      · exact absurd hc (by decide)
+      · rcases h1 with h1 | h1 <;> (rw [h1] at hc; exact absurd hc (by decide))
+    · split at hc
+      · rename_i h2
+        have hlt : c.toNat < 32 := by simpa [UInt8.lt_iff_toNat_lt] using h2
+        simp only [List.mem_cons, List.not_mem_nil, or_false] at hc
+        rcases hc with hc | hc | hc | hc | hc | hc
+        · exact absurd hc (by decide)
+        · exact absurd hc (by decide)
+        · exact absurd hc (by decide)
+        · exact absurd hc (by decide)
+        · exact hexLow_ne_zero _ (by omega) hc.symm
+        · exact hexLow_ne_zero _ (by omega) hc.symm
+      · rename_i h2
+        simp only [List.mem_cons, List.not_mem_nil, or_false] at hc
+        apply h2
+        rw [← hc]; decide
+  · exact absurd h (by decide)
+
+theorem floatJson_noNul (text : Bytes) (h0 : (0 : UInt8) ∉ text) :
+    (0 : UInt8) ∉ (if isNonFiniteText text then 34 :: (text ++ [34]) else text) := by
+  split
+  · intro h
+    simp only [List.mem_cons, List.mem_append, List.not_mem_nil, or_false] at h
+    rcases h with h | h | h
+    · exact absurd h (by decide)
+    · exact h0 h
+    · exact absurd h (by decide)
+  · exact h0
+
+mutual
+theorem json_noNul (F : FloatFmt) (hS : FloatSqlOK F) : ∀ v : GoVal, (0 : UInt8) ∉ writeJSONValue F v
+  | .nil => by simp only [writeJSONValue]; decide
+  | .bool true => by simp only [writeJSONValue, if_true]; decide
+  | .bool false => by simp only [writeJSONValue, Bool.false_eq_true, if_false]; decide
+  | .int i => by simp only [writeJSONValue]; exact decInt_noNul i
+  | .f64 b => by simp only [writeJSONValue]; exact floatJson_noNul _ (hS.nul64 b)
+  | .f32 b => by simp only [writeJSONValue]; exact floatJson_noNul _ (hS.nul32 b)
+  | .str s => by simp only [writeJSONValue]; exact jsonString_noNul s
+  | .arr xs => by
+    have := jsonElems_noNul F hS xs
+    simp only [writeJSONValue]
+    intro h
+    simp only [List.mem_cons, List.mem_append, List.not_mem_nil, or_false] at h
+    rcases h with h | h | h
+    · exact absurd h (by decide)
+    · exact this h
+    · exact absurd h (by decide)
+  | .obj kvs => by
+    have := jsonMembers_noNul F hS kvs
+    simp only [writeJSONValue]
+    intro h
+    simp only [List.mem_cons, List.mem_append, List.not_mem_nil, or_false] at h
+    rcases h with h | h | h
+    · exact absurd h (by decide)
+    · exact this h
+    · exact absurd h (by decide)
+theorem jsonElems_noNul (F : FloatFmt) (hS : FloatSqlOK F) : ∀ xs : List GoVal, (0 : UInt8) ∉ jsonElems F xs
+  | [] => by simp [jsonElems]
+  | [x] => by simp only [jsonElems]; exact json_noNul F hS x
+  | x :: y :: ys => by
+    have h1 := json_noNul F hS x
+    have h2 := jsonElems_noNul F hS (y :: ys)
+    simp only [jsonElems]
+    intro h
+    simp only [List.mem_cons, List.mem_append] at h
+    rcases h with h | h | h
+    · exact h1 h
+    · exact absurd h (by decide)
+    · exact h2 h
+theorem jsonMembers_noNul (F : FloatFmt) (hS : FloatSqlOK F) : ∀ kvs : List (Bytes × GoVal), (0 : UInt8) ∉ jsonMembers F kvs
+  | [] => by simp [jsonMembers]
+  | [(k, v)] => by
+    have h1 := json_noNul F hS v
+    simp only [jsonMembers]
+    intro h
+    simp only [List.mem_cons, List.mem_append] at h
+    rcases h with h | h | h
+    · exact jsonString_noNul k h
+    · exact absurd h (by decide)
+    · exact h1 h
+  | (k, v) :: kv2 :: rest => by
+    have h1 := json_noNul F hS v
+    have h2 := jsonMembers_noNul F hS (kv2 :: rest)
+    simp only [jsonMembers]
+    intro h
+    simp only [List.mem_cons, List.mem_append] at h
+    rcases h with (h | h | h) | h | h
+    · exact jsonString_noNul k h
+    · exact absurd h (by decide)
+    · exact h1 h
+    · exact absurd h (by decide)
+    · exact h2 h
 end
 
 /-! ### reading -/
@@ -66,78 +203,119 @@ theorem reads_kw (w : Bytes) (folded : Bytes) (hw : w ≠ []) (hstart : ∀ c, w
     rw [← hf]
     exact reads_word c t (hstart c rfl) (fun d hd => hcont d (by simp [hd]))
 
+theorem nonFinite_cstr (text : Bytes) (h : isNonFiniteText text = true) : cstr text = text := by
+  simp only [isNonFiniteText, Bool.or_eq_true, beq_iff_eq] at h
+  rcases h with (h | h) | h <;> subst h <;> decide
+
 theorem reads_floatText (F : FloatFmt) (text : Bytes) (h : isNonFiniteText text = false → Reads numB text (numTextToks text)) :
     Reads closeB (if isNonFiniteText text then quoteLiteral text else text) (floatToks text) := by
   unfold floatToks
   by_cases hs : isNonFiniteText text = true
   · simp only [hs, if_true]
-    exact (reads_quoteLiteral text).weaken closeB_strB
+    have := (reads_quoteLiteral text).weaken closeB_strB
+    rw [nonFinite_cstr text hs] at this
+    exact this
   · have hs' : isNonFiniteText text = false := by simpa using hs
     simp only [hs', Bool.false_eq_true, if_false]
     exact (h hs').weaken closeB_numB
 
+/-- the JSON branch: one string constant holding the JSON text (which holds no NUL) -/
+theorem reads_jsonLiteral (F : FloatFmt) (hS : FloatSqlOK F) (v : GoVal) : Reads closeB (jsonLiteral F v) (jsonTok F v) := by
+  have := (reads_quoteLiteral (writeJSONValue F v)).weaken closeB_strB
+  rw [cstr_of_noNul _ (json_noNul F hS v)] at this
+  exact this
+
+theorem mapToJSON_eq (F : FloatFmt) (kvs : List (Bytes × GoVal)) : mapToJSON F kvs = writeJSONValue F (.obj kvs) := by
+  simp [writeJSONValue, mapToJSON]
+
+theorem reads_cast (st mt : Int) (hp : Pair st mt) : Reads closeB (arrayCast mt) (castToks mt) := by
+  rcases hp.reads with h | ⟨h1, h2⟩
+  · exact h.weaken closeB_wordB
+  · rw [h1, h2]; exact Reads.nil _
+
 mutual
-theorem reads_value (F : FloatFmt) (hS : FloatSqlOK F) : ∀ v : GoVal, Reads closeB (formatSQLValue F v) (valueToks F v)
-  | .nil => by
+theorem reads_value (F : FloatFmt) (hS : FloatSqlOK F) : ∀ (v : GoVal) (st mt : Int), Pair st mt →
+    Reads closeB (formatSQLValue F mt v) (valueToks F mt v)
+  | .nil, _, _, _ => by
     simp only [formatSQLValue, valueToks]
     exact (reads_kw (asc "NULL") (asc "null") (by decide) (by decide) (by decide) (by decide)).weaken closeB_wordB
-  | .bool true => by
+  | .bool true, _, mt, _ => by
     simp only [formatSQLValue, valueToks, if_true]
-    exact (reads_kw (asc "TRUE") (asc "true") (by decide) (by decide) (by decide) (by decide)).weaken closeB_wordB
-  | .bool false => by
+    split
+    · exact reads_jsonLiteral F hS _
+    · exact (reads_kw (asc "TRUE") (asc "true") (by decide) (by decide) (by decide) (by decide)).weaken closeB_wordB
+  | .bool false, _, mt, _ => by
     simp only [formatSQLValue, valueToks, Bool.false_eq_true, if_false]
-    exact (reads_kw (asc "FALSE") (asc "false") (by decide) (by decide) (by decide) (by decide)).weaken closeB_wordB
-  | .int i => by
+    split
+    · exact reads_jsonLiteral F hS _
+    · exact (reads_kw (asc "FALSE") (asc "false") (by decide) (by decide) (by decide) (by decide)).weaken closeB_wordB
+  | .int i, _, mt, _ => by
     simp only [formatSQLValue, valueToks]
-    exact (reads_decInt i).weaken closeB_numB
-  | .f64 b => by
+    split
+    · exact reads_jsonLiteral F hS _
+    · exact (reads_decInt i).weaken closeB_numB
+  | .f64 b, _, mt, _ => by
     simp only [formatSQLValue, valueToks]
-    exact reads_floatText F (F.v64 b) (hS.r64 b)
-  | .f32 b => by
+    split
+    · exact reads_jsonLiteral F hS _
+    · exact reads_floatText F (F.v64 b) (hS.r64 b)
+  | .f32 b, _, mt, _ => by
     simp only [formatSQLValue, valueToks]
-    exact reads_floatText F (F.v32 b) (hS.r32 b)
-  | .str s => by
+    split
+    · exact reads_jsonLiteral F hS _
+    · exact reads_floatText F (F.v32 b) (hS.r32 b)
+  | .str s, _, mt, _ => by
     simp only [formatSQLValue, valueToks]
-    exact (reads_quoteLiteral s).weaken closeB_strB
-  | .obj kvs => by
+    split
+    · exact reads_jsonLiteral F hS _
+    · exact (reads_quoteLiteral s).weaken closeB_strB
+  | .obj kvs, _, mt, _ => by
+    simp only [formatSQLValue, valueToks, mapToJSON_eq]
+    split
+    · exact reads_jsonLiteral F hS _
+    · exact reads_jsonLiteral F hS _
+  | .arr [], _, mt, _ => by
     simp only [formatSQLValue, valueToks]
-    exact (reads_quoteLiteral _).weaken closeB_strB
-  | .arr [] => by
+    split
+    · exact reads_jsonLiteral F hS _
+    · have h := (reads_quoteLiteral (asc "{}")).weaken closeB_strB
+      exact Reads.cast' h (by decide) (by decide)
+  | .arr (x :: xs'), st, mt, hp => by
     simp only [formatSQLValue, valueToks]
-    have h := (reads_quoteLiteral (asc "{}")).weaken closeB_strB
-    exact Reads.cast' h (by decide) rfl
-  | .arr (x :: xs') => by
-    simp only [formatSQLValue, valueToks]
-    generalize hxs : x :: xs' = xs
-    have hkw := reads_kw (asc "ARRAY") (asc "array") (by decide) (by decide) (by decide) (by decide)
-    have hopen := reads_self 91 (by decide) (by decide)
-    have hclose := reads_self 93 (by decide) (by decide)
-    have helems := reads_elems F hS xs
-    -- ARRAY [ elems ]
-    have h1 : Reads anyB (asc "ARRAY[") [.word (asc "array"), .op [91]] := by
-      have := Reads.append_cons hkw hopen (by intro c hc; simp at hc; subst hc; decide)
-      simpa [asc] using this
-    have h2 : Reads anyB (sqlElems F xs ++ [93]) (elemsToks F xs ++ [.op [93]]) :=
-      Reads.append_cons helems hclose (by intro c hc; simp at hc; subst hc; right; right; rfl)
-    have h3 := Reads.append h1 h2 (fun _ _ => trivial)
-    have h4 := h3.weaken (B2 := closeB) (fun _ _ => trivial)
-    simpa [List.append_assoc] using h4
+    split
+    · exact reads_jsonLiteral F hS _
+    · generalize hxs : x :: xs' = xs
+      have hkw := reads_kw (asc "ARRAY") (asc "array") (by decide) (by decide) (by decide) (by decide)
+      have hopen := reads_self 91 (by decide) (by decide)
+      have hclose := reads_self 93 (by decide) (by decide)
+      have helems := reads_elems F hS xs _ _ hp.elem
+      have hcast := reads_cast st mt hp
+      -- ARRAY [ elems ] cast
+      have h1 : Reads anyB (asc "ARRAY[") [.word (asc "array"), .op [91]] := by
+        have := Reads.append_cons hkw hopen (by intro c hc; simp at hc; subst hc; decide)
+        simpa [asc] using this
+      have h2 : Reads anyB (sqlElems F ((arrayElemType mt).getD 0) xs ++ [93]) (elemsToks F ((arrayElemType mt).getD 0) xs ++ [.op [93]]) :=
+        Reads.append_cons helems hclose (by intro c hc; simp at hc; subst hc; right; right; rfl)
+      have h3 := Reads.append h1 h2 (fun _ _ => trivial)
+      have h4 := Reads.append h3 hcast (fun _ _ => trivial)
+      exact Reads.cast' h4 (by simp [List.append_assoc]) (by simp [List.append_assoc])
 termination_by v => sizeOf v
 decreasing_by all_goals (simp_wf; try omega)
-theorem reads_elems (F : FloatFmt) (hS : FloatSqlOK F) : ∀ xs : List GoVal, Reads closeB (sqlElems F xs) (elemsToks F xs)
-  | [] => by simp only [sqlElems, elemsToks]; exact Reads.nil _
-  | [x] => by simp only [sqlElems, elemsToks]; exact reads_value F hS x
-  | x :: y :: rest => by
+theorem reads_elems (F : FloatFmt) (hS : FloatSqlOK F) : ∀ (xs : List GoVal) (st mt : Int), Pair st mt →
+    Reads closeB (sqlElems F mt xs) (elemsToks F mt xs)
+  | [], _, _, _ => by simp only [sqlElems, elemsToks]; exact Reads.nil _
+  | [x], st, mt, hp => by simp only [sqlElems, elemsToks]; exact reads_value F hS x st mt hp
+  | x :: y :: rest, st, mt, hp => by
     simp only [sqlElems, elemsToks]
-    have hx := reads_value F hS x
-    have hrest := reads_elems F hS (y :: rest)
+    have hx := reads_value F hS x st mt hp
+    have hrest := reads_elems F hS (y :: rest) st mt hp
     have hcomma := reads_self 44 (by decide) (by decide)
     have hsp := reads_space 32 (by decide)
     -- x , ␣ rest
     have h1 : Reads anyB [44, 32] [.op [44]] := by
       have := Reads.append_cons hcomma hsp trivial
       simpa using this
-    have h2 : Reads closeB (44 :: 32 :: sqlElems F (y :: rest)) (.op [44] :: elemsToks F (y :: rest)) := by
+    have h2 : Reads closeB (44 :: 32 :: sqlElems F mt (y :: rest)) (.op [44] :: elemsToks F mt (y :: rest)) := by
       have := Reads.append h1 hrest (fun _ _ => trivial)
       simpa using this
     exact Reads.append_cons hx h2 (by intro c hc; simp at hc; subst hc; left; rfl)
@@ -190,46 +368,81 @@ theorem floatCell_floatToks (nf nan neg : Bool) (text : Bytes) (more : List Tok)
     simp only [hs', h1 hs', Bool.false_eq_true, if_false]
     exact signedNum_numTextToks text more
 
+theorem jsonDoc_jsonTok (F : FloatFmt) (hF : ExportJson.FloatOK F) (v : GoVal) (more : List Tok) :
+    jsonDoc F v (jsonTok F v ++ more) = some more := by
+  simp only [jsonDoc, jsonTok, List.cons_append, List.nil_append]
+  apply one_cons
+  simp only [Spec.Json.textAgrees, ExportJson.parse_value F hF v]
+  exact ExportJson.agrees_jsonOf F hF v
+
+theorem cstr_same (s : Bytes) : Spec.SqlExport.cstr s = cstr s := rfl
+
 mutual
-theorem value_valueToks (F : FloatFmt) (hF : ExportJson.FloatOK F) : ∀ (v : GoVal) (more : List Tok),
-    value F v (valueToks F v ++ more) = some more
-  | .nil, more => by simp only [value, valueToks, List.cons_append, List.nil_append]; exact one_cons _ _ _ (isWord_asc "null")
-  | .bool true, more => by
-    simp only [value, valueToks, if_true, List.cons_append, List.nil_append]; exact one_cons _ _ _ (isWord_asc "true")
-  | .bool false, more => by
-    simp only [value, valueToks, Bool.false_eq_true, if_false, List.cons_append, List.nil_append]
-    exact one_cons _ _ _ (isWord_asc "false")
-  | .int i, more => by
-    simp only [value, valueToks, intToks_eq]; exact signedNum_numTextToks _ more
-  | .f64 b, more => by
+theorem value_valueToks (F : FloatFmt) (hF : ExportJson.FloatOK F) : ∀ (v : GoVal) (st mt : Int), Pair st mt → ∀ more : List Tok,
+    value F st v (valueToks F mt v ++ more) = some more
+  | .nil, _, _, _, more => by simp only [value, valueToks, List.cons_append, List.nil_append]; exact one_cons _ _ _ (isWord_asc "null")
+  | .bool true, st, mt, hp, more => by
+    simp only [value, valueToks, hp.json, if_true]
+    split
+    · exact jsonDoc_jsonTok F hF _ more
+    · simp only [List.cons_append, List.nil_append]; exact one_cons _ _ _ (isWord_asc "true")
+  | .bool false, st, mt, hp, more => by
+    simp only [value, valueToks, hp.json, Bool.false_eq_true, if_false]
+    split
+    · exact jsonDoc_jsonTok F hF _ more
+    · simp only [List.cons_append, List.nil_append]; exact one_cons _ _ _ (isWord_asc "false")
+  | .int i, st, mt, hp, more => by
+    simp only [value, valueToks, hp.json]
+    split
+    · exact jsonDoc_jsonTok F hF _ more
+    · simp only [intToks_eq]; exact signedNum_numTextToks _ more
+  | .f64 b, st, mt, hp, more => by
+    simp only [value, valueToks, hp.json]
+    split
+    · exact jsonDoc_jsonTok F hF _ more
+    · exact floatCell_floatToks _ _ _ _ more (fun h => (hF.num64 b h).1) (hF.special64 b)
+  | .f32 b, st, mt, hp, more => by
+    simp only [value, valueToks, hp.json]
+    split
+    · exact jsonDoc_jsonTok F hF _ more
+    · exact floatCell_floatToks _ _ _ _ more (fun h => (hF.num32 b h).1) (hF.special32 b)
+  | .str s, st, mt, hp, more => by
+    simp only [value, valueToks, hp.json]
+    split
+    · exact jsonDoc_jsonTok F hF _ more
+    · simp [one, cstr_same]
+  | .obj kvs, st, mt, hp, more => by
     simp only [value, valueToks]
-    exact floatCell_floatToks _ _ _ _ more (fun h => (hF.num64 b h).1) (hF.special64 b)
-  | .f32 b, more => by
-    simp only [value, valueToks]
-    exact floatCell_floatToks _ _ _ _ more (fun h => (hF.num32 b h).1) (hF.special32 b)
-  | .str s, more => by simp [value, valueToks, one]
-  | .obj kvs, more => by
-    simp only [value, valueToks, List.cons_append, List.nil_append]
-    exact one_cons _ _ _ (ExportJson.textAgrees_mapToJSON F hF kvs)
-  | .arr [], more => by simp [value, valueToks, one, Export.asc, Spec.SqlLex.asc]
-  | .arr (x :: xs'), more => by
-    have ih := values_elemsToks F hF (x :: xs') (by simp) (.op [93] :: more)
-    simp only [value, valueToks, List.cons_append, List.append_assoc, List.nil_append]
-    rw [one_cons _ _ _ (isWord_asc "array")]
-    simp only [Option.bind_some, Option.bind_eq_bind]
-    rw [one_cons _ _ _ (by simp [isOp])]
-    simp only [Option.bind_some, Option.bind_eq_bind]
-    rw [ih]
-    simp [one, isOp]
+    exact jsonDoc_jsonTok F hF _ more
+  | .arr [], st, mt, hp, more => by
+    simp only [value, valueToks, hp.json]
+    split
+    · exact jsonDoc_jsonTok F hF _ more
+    · simp [one, Export.asc, Spec.SqlLex.asc]
+  | .arr (x :: xs'), st, mt, hp, more => by
+    simp only [value, valueToks, hp.json]
+    split
+    · exact jsonDoc_jsonTok F hF _ more
+    · have ih := values_elemsToks F hF (x :: xs') (by simp) _ _ hp.elem (.op [93] :: (castToks mt ++ more))
+      simp only [List.cons_append, List.append_assoc, List.nil_append]
+      rw [one_cons _ _ _ (isWord_asc "array")]
+      simp only [Option.bind_some, Option.bind_eq_bind]
+      rw [one_cons _ _ _ (by simp [isOp])]
+      simp only [Option.bind_some, Option.bind_eq_bind]
+      rw [ih]
+      simp only [Option.bind_some]
+      rw [one_cons _ _ _ (by simp [isOp])]
+      simp only [Option.bind_some]
+      exact hp.cast more
 termination_by v => sizeOf v
 decreasing_by all_goals (simp_wf; try omega)
-theorem values_elemsToks (F : FloatFmt) (hF : ExportJson.FloatOK F) : ∀ (xs : List GoVal), xs ≠ [] → ∀ (more : List Tok),
-    values F xs (elemsToks F xs ++ more) = some more
-  | [], h, _ => absurd rfl h
-  | [x], _, more => by simp only [values, elemsToks]; exact value_valueToks F hF x more
-  | x :: y :: rest, _, more => by
-    have h1 := value_valueToks F hF x (.op [44] :: (elemsToks F (y :: rest) ++ more))
-    have h2 := values_elemsToks F hF (y :: rest) (by simp) more
+theorem values_elemsToks (F : FloatFmt) (hF : ExportJson.FloatOK F) : ∀ (xs : List GoVal), xs ≠ [] → ∀ (st mt : Int), Pair st mt →
+    ∀ (more : List Tok), values F st xs (elemsToks F mt xs ++ more) = some more
+  | [], h, _, _, _, _ => absurd rfl h
+  | [x], _, st, mt, hp, more => by simp only [values, elemsToks]; exact value_valueToks F hF x st mt hp more
+  | x :: y :: rest, _, st, mt, hp, more => by
+    have h1 := value_valueToks F hF x st mt hp (.op [44] :: (elemsToks F mt (y :: rest) ++ more))
+    have h2 := values_elemsToks F hF (y :: rest) (by simp) st mt hp more
     simp only [values, elemsToks, List.append_assoc, List.cons_append]
     rw [h1]
     simp only [Option.bind_some, Option.bind_eq_bind]
